@@ -25,7 +25,13 @@ def build(tier, seed):
         c.search_fn = lambda: c02.lookahead_cases()
         return c
     _pb.__name__ = "pass_back"
-    tasks = [a_task(PROP, _pb), a_task(PROP, scanners.unterminated), a_task(PROP, scanners.quote_split), a_task(PROP, scanners.literal_end), a_task(PROP, _cont)]
+    def _lt():
+        from bounded import c02
+        c = readerblocks.literal_tail(PROP)
+        c.search_fn = lambda: c02.search(seed)
+        return c
+    _lt.__name__ = "literal_tail_block"
+    tasks = [a_task(PROP, _pb), a_task(PROP, scanners.unterminated), a_task(PROP, scanners.quote_split), a_task(PROP, scanners.literal_end), a_task(PROP, _cont), a_task(PROP, _lt)]
 
     def bd():
         from bounded import c02
@@ -56,6 +62,11 @@ def build(tier, seed):
         from bounded import c02
         return masking.obligations(PROP, "ford.sourceform", c02.parser_literal_cases)
     tasks.append(Task(f"{PROP}.S.masking", PROP, "literal masking loops", _mask))
+    def _lower():
+        from contracts import plumbing
+        from bounded import c02
+        return plumbing.lower_after_masking(PROP, c02.parser_literal_cases)
+    tasks.append(Task(f"{PROP}.S.lower", PROP, "FortranContainer.__init__", _lower))
     tasks.append(Task(f"{PROP}.S.literal_reinsertion", PROP, "line_to_variables",
                       lambda: __import__("contracts.declarations", fromlist=["x"]).literal_reinsertion_is_last(PROP)))
     tasks.append(Task(f"{PROP}.B.QUOTES_RE", PROP, "ford.sourceform.QUOTES_RE", lambda: rx_lex.quotes_re_obligations(PROP)))
@@ -64,7 +75,8 @@ def build(tier, seed):
         "assumptions": PYVC_ASSUMPTIONS + REVC_ASSUMPTIONS,
         "functions_under_contract": fn_meta([("ford.reader", "_contains_unterminated_string", None), ("ford.utils", "quote_split", None), ("ford.reader", "FortranReader.pass_back", None),
                                              ("ford.reader", "FortranReader.__next__", "block contract: `if len(line) == 0:` ... `linebuffer += line` inside `while not done` "
-                                              "(continuation joining); inputs line (stripped), continued, linebuffer")]) +
+                                              "(continuation joining); inputs line (stripped), continued, linebuffer"),
+                                             ("ford.reader", "FortranReader.__next__", "block contract: the `if in_quote:` statement that cuts the line at the end of a continued literal")]) +
         [{"constant": "ford.reader.FortranReader.COM_RE"}, {"constant": f"ford.reader._compile_docmark(m) for m in {MARKERS}"},
          {"constant": "ford.sourceform.QUOTES_RE"}, {"loops": "every `while QUOTES_RE.search(X[search_from:])` masking / re-insertion loop of ford/sourceform.py"}],
         "unverified_surroundings": ["FortranReader.__next__ as a whole (composition of its blocks)", "include handling", "preprocessor",
